@@ -40,7 +40,7 @@ class Spec(object):
     id = "C16"
     account = True
     rule = ("every execution = one complete answer sequence (unbounded streams, pairwise incommensurable menus) of the "
-            "unsplit run to T; for each tie-free execution EVERY split vector with 1 (quick) / up to 2 (thorough) cuts "
+            "unsplit run to T; for each tie-free execution EVERY split vector with 1 cut plus all pairs among the first six cut points (quick) / up to 2 cuts (thorough) "
             "taken from {event instants, midpoints between consecutive event instants} is re-executed with the same "
             "answer sequence; non-trivial = at least one split run was compared; distinct = distinct observation digest")
     assumptions = [
@@ -78,6 +78,9 @@ class Spec(object):
         cutsets = [(p,) for p in pts]
         if self.max_cuts >= 2:
             cutsets += list(itertools.combinations(pts, 2))
+        else:
+            # quick tier: every pair among the first six cut points (two pauses inside one service / busy spell)
+            cutsets += list(itertools.combinations(pts[:6], 2))
         for cuts in cutsets:
             def drive(Q, hub, cuts=cuts):
                 for c in cuts:
